@@ -223,7 +223,8 @@ def validate_traces(module: str, traces: List[Any], wd: Path, *, tag: str = "",
         r = run_tlc(module, cfg, wd, workers=1, tag=f"{tag}_{ci}", timeout=timeout,
                     env={"TRACE_FILE": str(tf), "OUT_FILE": str(of)})
         if not r.ok or not of.exists():
-            raise MachineryError(f"TLC failed validating {tf}:\n{r.out[-3000:]}")
+            k = r.out.find("Error:")
+            raise MachineryError(f"TLC failed validating {tf}:\n{r.out[max(0, k):k + 1800] if k >= 0 else r.out[-1800:]}")
         v = json.loads(of.read_text())
         if isinstance(v, dict):  # TLC serialises functions over 1..n as objects sometimes
             v = [v[str(k)] for k in range(1, len(v) + 1)]
